@@ -14,8 +14,10 @@ MCAsts == << Fn(NameCps["sort_by"], <<Lit(Arr(<<I(3), I(1), I(2)>>)), Ref(Curren
              Sub(Field(cA), Field(cB)),
              MSL(<<Fn(NameCps["not_null"], <<Field(cA), Field(cB)>>), Fn(NameCps["not_null"], <<Field(cA), Field(cB), Field(<<99>>)>>)>>),
              Or(Fn(NameCps["merge"], <<Field(cA)>>), Fn(NameCps["not_null"], <<Field(cB), Field(cA), Lit(I(7)), Lit(I(8))>>)),
+             Proj(IdxE(Current, SliceN(IntP(-2), NoneP, NoneP)), Identity),
+             Proj(Current, Proj(IdxE(Identity, SliceN(NoneP, IntP(4), NoneP)), Identity)),
              MSL(<<Fn(NameCps["not_null"], <<Field(cB), Lit(I(1)), Lit(I(2))>>), Fn(NameCps["not_null"], <<Field(cB)>>), Fn(NameCps["max_by"], <<Current, Ref(Current)>>)>>) >>
-MCDocs == << Arr(<<I(3), I(1), I(2)>>), Obj({<<cA, I(-1)>>, <<cB, Str(<<120>>)>>}), Obj({<<cA, Str(<<120>>)>>}),
+MCDocs == << Arr(<<I(3), I(1), I(2)>>), Arr(<<I(5), I(4), I(3), I(2), I(1), I(0)>>), Arr(<<Arr(<<I(1), I(2), I(3), I(4), I(5), I(6)>>), Arr(<<I(7)>>), Arr(<<I(8), I(9)>>)>>), Obj({<<cA, I(-1)>>, <<cB, Str(<<120>>)>>}), Obj({<<cA, Str(<<120>>)>>}),
              Obj({<<cA, Arr(<<Obj({<<cA, I(2)>>}), Obj({<<cA, I(1)>>})>>)>>}), Null >>
 (* a.b | [0 | (unclosed quote) | a[1] | a.b.c | * | a( | `1` *)
 MCTexts == << <<97, 46, 98>>, <<91, 48>>, <<34, 97>>, <<97, 91, 49, 93>>, <<97, 46, 98, 46, 99>>, <<42>>, <<97, 40>>, <<96, 49, 96>>, <<97, 124, 124>>,
